@@ -84,10 +84,10 @@ def profile(prop, g):
     if prop == 'C01':
         kw.update(p_doc=0.85, layout=g.choice([1, 2, 2]), max_items=5)
     elif prop == 'C02':
-        kw.update(max_depth=4, layout=g.choice([1, 2, 2]), malformed=g.choice([0, 0, 0, 0.15]),
+        kw.update(max_depth=4, layout=g.choice([1, 2, 2]), malformed=g.choice([0, 0, 0, 0.15]), p_docimpl=g.choice([0, 0, 0.4]),
                   weights={'dangling': 1.5, 'generic': 2.0, 'blk': 1.5})
     elif prop == 'C03':
-        kw.update(max_depth=4, weights={'func': 3, 'macro': 3, 'cpa': 4, 'blk': 2, 'member': 2, 'cttest': 1.5, 'class': 1.5,
+        kw.update(max_depth=4, p_docimpl=g.choice([0, 0, 0.4]), weights={'func': 3, 'macro': 3, 'cpa': 4, 'blk': 2, 'member': 2, 'cttest': 1.5, 'class': 1.5,
                                         'set': 0.3, 'option': 0.3, 'add_test': 0.3, 'generic': 0.5, 'dangling': 0.3})
         cfg['trigger'] = g.choice([':keyword', ':param **kwargs:', '', 'x', ':param'])
         cfg['regex'] = {'fn': g.choice(['', '^_[a-zA-Z]*_', 'x', '^.', '[0-9]+$', 'f|g']), 'macro': g.choice(['', '^_', 'a']),
@@ -98,14 +98,14 @@ def profile(prop, g):
     elif prop == 'C09':
         kw.update(max_depth=4, weights={'class': 5, 'member': 3, 'attr': 3, 'ctor': 2, 'func': 0.7, 'set': 0.4, 'option': 0.3,
                                         'add_test': 0.2, 'cttest': 0.4, 'dangling': 0.3, 'generic': 0.6},
-                  malformed=g.choice([0, 0, 0.15]))
+                  malformed=g.choice([0, 0, 0.15]), p_docimpl=g.choice([0, 0, 0.4]))
         cfg['regex']['member'] = g.choice(['', '^_[a-z]*_', 'x', '^.'])
     elif prop == 'C10':
         kw.update(weights={'set': 6, 'option': 5, 'func': 0.7, 'class': 0.3, 'cttest': 0.2, 'add_test': 0.3}, p_doc=0.7,
                   malformed=g.choice([0, 0, 0.15]))
     elif prop == 'C11':
         kw.update(weights={'cttest': 5, 'section': 5, 'add_test': 5, 'func': 0.5, 'class': 0.3, 'set': 0.3}, p_doc=0.6, max_depth=4,
-                  malformed=g.choice([0, 0, 0.15]))
+                  malformed=g.choice([0, 0, 0.15]), p_docimpl=g.choice([0, 0, 0.4]))
     elif prop == 'C04':
         kw.update(layout=2, max_items=5)
     elif prop == 'C05':
@@ -154,6 +154,19 @@ def compare_case(prop, m, cfg, src, model, real):
             pr = oracle.project(prop, oracle.neutralise(real['rst']), real['entries'])
             if pe != pr:
                 vio = dict(kind='output differs from what the module prescribes', expected=pe, real=pr)
+    elif not wf and not has_crlf_doc(m) and GM.well_formed(m, documented_impl=True)[0]:
+        # implementing definitions with doccomments of their own: both readings of the property text are accepted for that
+        # definition's own entry; everything else on the page is prescribed as usual
+        tags.append('wf-with-documented-impl')
+        specs = [GM.spec_entries(m, cfg, reading=r) for r in ('A', 'B', 'A2')]
+        if specs[0] is None: tags.append('K1-region')
+        elif 'err' in real: vio = dict(kind='well-formed module rejected', real=real)
+        else:
+            pr = oracle.project(prop, oracle.neutralise(real['rst']), real['entries'])
+            pes = [oracle.project(prop, oracle.neutralise(oracle.expected_rst(sp, 'T', 'M', '#')), sp) for sp in specs]
+            if pr not in pes:
+                vio = dict(kind='output differs from what the module prescribes (under either reading of a documented implementing definition)',
+                           expected=pes[0], expected_other_reading=pes[1], real=pr)
     return dis, vio, tags
 
 
